@@ -319,6 +319,7 @@ def analyse_function(rd, m, fdef):
 
     seeded_locals = {}       # name -> (seed, assignment node) for  name = default_rng(<int literal>)
     passthrough_ok = set()   # Assign nodes of the form  rng = default_rng(rng)
+    aliases = set()          # local names bound by such an assignment (the function's generator from then on)
     # ---- walk: names / attribute chains (maximal), calls, stores, global statements
     for n in ast.walk(fdef):
         if isinstance(n, ast.Global):
@@ -391,9 +392,9 @@ def analyse_function(rd, m, fdef):
                             seeded_locals.setdefault(nm, []).append((v, asg))
                     elif k == "ctor":
                         pass
-                    elif k == "param" and d == "numpy.random.default_rng" and v == "rng" and simple_target and \
-                            asg.targets[0].id == "rng" and asg in fdef.body:
-                        passthrough_ok.add(asg)          # rng = np.random.default_rng(rng)
+                    elif k == "param" and d == "numpy.random.default_rng" and v == "rng" and simple_target and asg in fdef.body:
+                        passthrough_ok.add(asg)          # rng = np.random.default_rng(rng)   (any local name on the left)
+                        aliases.add(asg.targets[0].id)
                     elif k == "none":
                         flags.append(f"unseeded_generator:{d}()")
                     else:
@@ -410,14 +411,19 @@ def analyse_function(rd, m, fdef):
                 else:
                     call = par
                     passed = None
-                    if any(isinstance(x, ast.Starred) for x in call.args) or any(k.arg is None for k in call.keywords):
-                        calls.append((cq, "ArgOther"))
-                        continue
                     for kw in call.keywords:
                         if kw.arg == "rng":
                             passed = kw.value
-                    if passed is None and "rng" in cparams and cparams.index("rng") < len(call.args):
+                    # an explicit `rng=` keyword cannot be overridden by a `**mapping` in the same call (duplicate keywords raise);
+                    # without it, star-arguments make the passed generator unreadable
+                    # ... nor can a positional `rng` (a second value for the same parameter raises), provided no *iterable
+                    # precedes its position
+                    if passed is None and "rng" in cparams and cparams.index("rng") < len(call.args) and \
+                            not any(isinstance(x, ast.Starred) for x in call.args[:cparams.index("rng") + 1]):
                         passed = call.args[cparams.index("rng")]
+                    if passed is None and (any(isinstance(x, ast.Starred) for x in call.args) or any(k.arg is None for k in call.keywords)):
+                        calls.append((cq, "ArgOther"))
+                        continue
                     calls.append((cq, ("Missing", None) if passed is None else ("Expr", passed)))
     # ---- the function's own generator
     rng_assigns = [n for n in ast.walk(fdef) if isinstance(n, (ast.Assign, ast.AugAssign, ast.AnnAssign, ast.For, ast.With,
@@ -440,8 +446,9 @@ def analyse_function(rd, m, fdef):
     own, rngk = None, "NoRng"
     if "rng" in params:
         own = "rng"
-        others = [n for n in rng_assigns if binds(n, "rng") and n not in passthrough_ok]
-        rngk = "RngParam" if not others and len(passthrough_ok) <= 1 and not nested_rebind("rng") else "RngBad"
+        others = [n for n in rng_assigns if (binds(n, "rng") or any(binds(n, a_) for a_ in aliases)) and n not in passthrough_ok]
+        rngk = "RngParam" if not others and len(passthrough_ok) <= 1 and not nested_rebind("rng") and \
+            not any(nested_rebind(a_) for a_ in aliases) else "RngBad"
     elif seeded_locals:
         if len(seeded_locals) == 1:
             own, lst = next(iter(seeded_locals.items()))
@@ -457,7 +464,7 @@ def analyse_function(rd, m, fdef):
             if a[0] == "Missing":
                 a = "ArgMissing"
             else:
-                a = "ArgRng" if own is not None and isinstance(a[1], ast.Name) and a[1].id == own else "ArgOther"
+                a = "ArgRng" if own is not None and isinstance(a[1], ast.Name) and (a[1].id == own or (own == "rng" and a[1].id in aliases)) else "ArgOther"
         if (cq, a) not in out_calls:
             out_calls.append((cq, a))
     uniq = []
